@@ -289,3 +289,26 @@ func (p *Path) nonZeroOn(upto int, key string) bool {
 	}
 	return false
 }
+
+// zeroOn: the path establishes key == 0 before upto - as an equality, or, for an unsigned
+// value, through an order fact that excludes "> 0" (x < 1, !(x >= 1), x <= 0).
+func (p *Path) zeroOn(upto int, key string) bool {
+	if rel, n := p.Relation(upto, keyIs(key), keyIs("0")); n > 0 && rel == rEQ {
+		return true
+	}
+	for i := 0; i < upto && i < len(p.Events); i++ {
+		ev := &p.Events[i]
+		if ev.Kind != EvFact || ev.Cond == nil || ev.Cond.Op != "bin" || len(ev.Cond.Args) != 2 {
+			continue
+		}
+		for _, side := range ev.Cond.Args {
+			if strip(side).Key() != key || !isUnsigned(side.Typ) {
+				continue
+			}
+			if rel, n := p.RelationLin(upto, side, &Term{Op: "const", Name: "0", Typ: side.Typ}); n > 0 && rel&rGT == 0 {
+				return true
+			}
+		}
+	}
+	return false
+}
